@@ -24,15 +24,13 @@ Theorem C08_project_refuted : ~ C08_project_full.
 Proof. exact project_full_refuted. Qed.
 Print Assumptions C08_project_refuted.
 
-(* known finding C08/omit-default-nan-isnan: vals_ok asks that a field with a NaN default holds a
-   number; without that clause (vals_ok_weak) the generated `not isnan(value)` raises TypeError on
-   None although the projection is defined *)
-Theorem C08_nan_default_refuted :
-  kw_ok nan_opts = true /\ vals_ok_weak nan_fields nan_vals = true /\ flag_defaults_ok nan_opts = true /\
-  to_dict_model nan_opts nan_fields nan_vals = None /\
-  project (eff_of nan_opts) nan_fields nan_vals (plain_out nan_fields nan_vals) = [("m", PNone)].
-Proof. exact nan_default_refuted. Qed.
-Print Assumptions C08_nan_default_refuted.
+(* NaN default under omit_default (repaired in /repo 80d27b9, formerly known finding
+   C08/omit-default-nan-isnan): None and non-numbers are kept, only a float NaN is dropped; this
+   instance is inside the domain of C08_project_partial *)
+Example C08_nan_default :
+  kw_ok nan_opts = true /\ vals_ok nan_fields nan_vals = true /\ flag_defaults_ok nan_opts = true /\
+  to_dict_model nan_opts nan_fields nan_vals = Some [("m", PNone); ("s", PStr "q")].
+Proof. exact nan_default_example. Qed.
 
 (* what the body computes on the whole lattice, D14 included: the projection under the DEFAULT
    METHOD's keyword defaults *)
